@@ -358,9 +358,21 @@ fn layer_grad_check(rng: &mut Rng, kind: &str, l: LCfg, input: Sh, sparse: bool,
     if sparse {
         out.count("layer_cases_with_exact_zeros_in_input_parameters_and_upstream_gradient", 1);
     }
+    // one case in eight (not the sparse ones): inputs of magnitude 30..3000 - sigmoid and tanh
+    // units deep in saturation on both sides (derivatives down to 0, never NaN)
+    let extreme = !sparse && limit == usize::MAX && rng.range(0, 7) == 0;
+    if extreme {
+        out.count("layer_cases_with_inputs_of_large_magnitude", 1);
+    }
     for _ in 0..25 {
         let mut params = gen_params(&cfg, rng, -1.5, 1.5).unwrap();
         let mut x = random_input(rng, input);
+        if extreme {
+            let k = *rng.pick(&[30.0f32, 100.0, 300.0, 2000.0]);
+            for v in x.iter_mut() {
+                *v *= k;
+            }
+        }
         if sparse {
             // (zeros in the input of a max-pool layer would only create ties)
             if kind != "pool" {
@@ -370,7 +382,7 @@ fn layer_grad_check(rng: &mut Rng, kind: &str, l: LCfg, input: Sh, sparse: bool,
         }
         let r: RNet<f64> = RNet::plain(&cfg, &params);
         let tr = r.forward(&Val::from_f32(cfg.input, &x));
-        if well_conditioned(&cfg.layers, &tr) {
+        if well_conditioned(&cfg.layers, &tr) || (extreme && tr.kink >= 1e-3 && tr.gap >= 1e-3) {
             found = Some((params, x, tr));
             break;
         }
@@ -825,7 +837,7 @@ impl Monitor for C01 {
         vec![("layers", tier.pick(97_200, 1_555_200)), ("large_layers", tier.pick(3_000, 60_000)), ("networks", tier.pick(18_900, 302_400))]
     }
     fn rule(&self) -> &'static str {
-        "layers: case i -> (kind in conv/deconv/dense/pool, activation, geometry from the covering walk over the 108 (kernel 1..3, stride 1..3, padding 0..3, dilation 1..3) tuples per axis, channels/filters 1..3, extents up to 7, repetition-free weights/inputs/upstream gradient in [-1.5,1.5], in every fourth block of cases with 30-40% of them set to exactly 0); the layer's public backward(u, x, pre) is compared entry by entry with the forward-mode dual-number derivative of <u, post(x; theta)> w.r.t. every input element and every weight/bias/kernel element (|g - d| <= 16 * de + 1e-5 * m: de = first-order bound on the deviation of a correct f32 evaluation incl. the effect of forward rounding on the derivative factors, m = the same derivative on absolute values); the input gradient must have the input's shape. large_layers: the same layer-level check on layers that are large in one direction (dense layers with inputs up to 4095 or outputs up to 1025, spatial layers with an extent up to 130, up to 9 channels / filters, kernels 1..5, stride 1..4, padding 0..3, dilation 1..3), derivative compared at up to 40 input and 40 parameter coordinates chosen next to block boundaries (0, 1, 31..33, 63..65, ..., start of the last partial block, n-2, n-1) plus random ones. networks: depth 2..5, any mix of dense/conv/deconv/pool that fits, every third with one or two feedback blocks (1..3 loops, no skips; gradients compared per unrolled copy), all seven objectives; gradients taken from the hooked Network::backward, (every third case) from the parameter change of one learn() step with plain SGD, or (every fifth block of cases) from the hooked backward of a network object that has already been trained for 1..3 steps (oracle at the parameters read back from it); oracle = derivative of the objective value for AE/MSE/BCE/KL and for soft-max + cross-entropy, of <objective gradient, output> for MAE/RMSE/CE. One sixth of the spatial network cases use inputs with flat regions (two values in runs): max-pool windows whose tied elements are the same local function of the parameters (equal value and equal directional derivative along a random direction) are kept - the maximum is differentiable there - all other ties are regenerated. Instances within 1e-3 of a ReLU kink / pool tie or with saturated sigmoid (pre > 6) are regenerated. Distinct = distinct configuration descriptors."
+        "layers: case i -> (kind in conv/deconv/dense/pool, activation, geometry from the covering walk over the 108 (kernel 1..3, stride 1..3, padding 0..3, dilation 1..3) tuples per axis, channels/filters 1..3, extents up to 7, repetition-free weights/inputs/upstream gradient in [-1.5,1.5], in every fourth block of cases with 30-40% of them set to exactly 0, in one case of eight the inputs scaled by 30..2000 so that sigmoid / tanh units are deep in saturation); the layer's public backward(u, x, pre) is compared entry by entry with the forward-mode dual-number derivative of <u, post(x; theta)> w.r.t. every input element and every weight/bias/kernel element (|g - d| <= 16 * de + 1e-5 * m: de = first-order bound on the deviation of a correct f32 evaluation incl. the effect of forward rounding on the derivative factors, m = the same derivative on absolute values); the input gradient must have the input's shape. large_layers: the same layer-level check on layers that are large in one direction (dense layers with inputs up to 4095 or outputs up to 1025, spatial layers with an extent up to 130, up to 9 channels / filters, kernels 1..5, stride 1..4, padding 0..3, dilation 1..3), derivative compared at up to 40 input and 40 parameter coordinates chosen next to block boundaries (0, 1, 31..33, 63..65, ..., start of the last partial block, n-2, n-1) plus random ones. networks: depth 2..5, any mix of dense/conv/deconv/pool that fits, every third with one or two feedback blocks (1..3 loops, no skips; gradients compared per unrolled copy), all seven objectives; gradients taken from the hooked Network::backward, (every third case) from the parameter change of one learn() step with plain SGD, or (every fifth block of cases) from the hooked backward of a network object that has already been trained for 1..3 steps (oracle at the parameters read back from it); oracle = derivative of the objective value for AE/MSE/BCE/KL and for soft-max + cross-entropy, of <objective gradient, output> for MAE/RMSE/CE. One sixth of the spatial network cases use inputs with flat regions (two values in runs): max-pool windows whose tied elements are the same local function of the parameters (equal value and equal directional derivative along a random direction) are kept - the maximum is differentiable there - all other ties are regenerated. Instances within 1e-3 of a ReLU kink / pool tie or with saturated sigmoid (pre > 6) are regenerated. Distinct = distinct configuration descriptors."
     }
     fn assumptions(&self) -> Vec<&'static str> {
         vec![
